@@ -258,7 +258,34 @@ func ruleR14(c *Ctx, prop string) {
 		}
 		return true
 	})
-	c.decide(okConv, "R14", "R14:convert:elementwise", c.pos(newBacking.Pos()), "out[i] = R(in[i]): Go conversion (= C conversion) per element, same index", "element converter does not convert in[i] to out[i]")
+	whyConv := "element converter does not convert in[i] to out[i]"
+	{
+		// the same fact over a finite table for every instance of the converter, whatever its loop looks like
+		nKnown, nPass, wit := 0, 0, ""
+		for _, f := range c.libFns {
+			o := f.Origin()
+			if o == nil || o.Name() != newBacking.Name.Name || fnPkgPath(o) != pkgOps || len(f.Params) != 1 {
+				continue
+			}
+			known, pass, w := c.elementwiseTable(f, 0, func(trail string) bool { return trail == "" || onlyConversions(trail) })
+			if known {
+				nKnown++
+				if pass {
+					nPass++
+				} else if wit == "" {
+					wit = fname(f) + ": " + w
+				}
+			}
+		}
+		if nKnown > 0 {
+			okConv = nPass == nKnown
+			if !okConv {
+				whyConv += ": " + wit
+			}
+			c.counts["R14:convert:elementwise:instances"] = nKnown
+		}
+	}
+	c.decide(okConv, "R14", "R14:convert:elementwise", c.pos(newBacking.Pos()), "out[i] = R(in[i]): Go conversion (= C conversion) per element, same index", whyConv)
 
 	// ---- directness: the element converter is instantiated on the source's own element type and fed
 	// the asserted backing itself, not a converted copy (an intermediate float64 loses int64/uint64 bits)
@@ -269,6 +296,47 @@ func ruleR14(c *Ctx, prop string) {
 }
 
 func (c *Ctx) checkConstantTables() {
+	n0 := len(c.obls)
+	c.checkConstantTablesAST()
+	// the Constant operator's clauses over the finite attribute table, however Init is written
+	known, bads := c.constantTable()
+	if !known {
+		return
+	}
+	seen := map[string]bool{}
+	for i := n0; i < len(c.obls); i++ {
+		o := &c.obls[i]
+		if !strings.HasPrefix(o.Key, "R14:constant:") || o.Status == StNote {
+			continue
+		}
+		sfx := strings.TrimPrefix(o.Key, "R14:constant:")
+		var bad string
+		switch {
+		case sfx == "value" || sfx == "value_float" || sfx == "value_floats" || sfx == "value_int" || sfx == "value_ints" || sfx == "refusals" || sfx == "count":
+			bad = bads[sfx]
+			seen[sfx] = true
+		case strings.HasPrefix(sfx, "list-shape"):
+			bad = firstNonEmpty(bads["value_floats"], bads["value_ints"])
+		default:
+			continue
+		}
+		if bad == "" {
+			if o.Status != StDischarged {
+				o.Status, o.Why = StDischarged, "by the finite attribute table (the structural pattern is not recognised)"
+			}
+		} else {
+			o.Status, o.Why = StViolated, bad
+		}
+	}
+	for _, sfx := range []string{"value", "value_float", "value_floats", "value_int", "value_ints", "refusals", "count"} {
+		if !seen[sfx] {
+			oi := c.opByName("Constant")
+			c.decide(bads[sfx] == "", "R14", "R14:constant:"+sfx, c.pos(oi.methods["Init"].Pos()), "by the finite attribute table", bads[sfx])
+		}
+	}
+}
+
+func (c *Ctx) checkConstantTablesAST() {
 	info := c.typesInfo(pkgOpset13)
 	var constInit, cosInit, cosApply *ast.FuncDecl
 	for _, fd := range c.funcDeclsOf(pkgOpset13) {
@@ -419,6 +487,13 @@ func (c *Ctx) checkConstantTables() {
 		return true
 	})
 	c.decide(posGate, "R14", "R14:cos:positive-dims", c.pos(cosApply.Pos()), "non-positive extents are refused", "ConstantOfShape builds tensors with non-positive extents (panic in gorgonia)")
+	if !dtypeFrom {
+		// the same fact on the resolved program: tensor.Of receives Dtype() of the receiver's value field, in Apply
+		// itself or in a helper that is handed that field
+		if oi := c.opByName("ConstantOfShape"); oi != nil && oi.methods["Apply"] != nil {
+			dtypeFrom = c.ofDtypeOfRecvField(oi.methods["Apply"], "value")
+		}
+	}
 	c.decide(dtypeFrom, "R14", "R14:cos:dtype", c.pos(cosApply.Pos()), "result element type is taken from the value tensor", "ConstantOfShape's result type is not the value's type")
 }
 
@@ -817,4 +892,81 @@ func evalIntPred(fn *ssa.Function, k int64) (bool, bool) {
 		}
 	}
 	return false, false
+}
+
+// ofDtypeOfRecvField: some tensor.Of(x.Dtype()) reachable from the method (library helpers, two levels) has x = the
+// receiver's field of that name, directly or through the helper's parameters.
+func (c *Ctx) ofDtypeOfRecvField(m *ssa.Function, field string) bool {
+	var fromField func(v ssa.Value, f *ssa.Function, depth int) bool
+	callers := func(h *ssa.Function) [][2]any {
+		var out [][2]any
+		for _, g := range c.libFns {
+			for _, b := range g.Blocks {
+				for _, in := range b.Instrs {
+					if cl, ok := in.(*ssa.Call); ok && cl.Common().StaticCallee() == h {
+						out = append(out, [2]any{cl, g})
+					}
+				}
+			}
+		}
+		return out
+	}
+	fromField = func(v ssa.Value, f *ssa.Function, depth int) bool {
+		if depth > 3 {
+			return false
+		}
+		v = stripConv(v)
+		switch x := v.(type) {
+		case *ssa.UnOp:
+			if fa, ok := x.X.(*ssa.FieldAddr); ok && x.Op == token.MUL {
+				if nn, st := structOfPtr(fa.X.Type()); nn != nil && st.Field(fa.Field).Name() == field && len(f.Params) > 0 && fa.X == ssa.Value(f.Params[0]) && f == m {
+					return true
+				}
+			}
+		case *ssa.Parameter:
+			idx := -1
+			for i, p := range f.Params {
+				if p == x {
+					idx = i
+				}
+			}
+			cs := callers(f)
+			if idx < 0 || len(cs) == 0 || f == m {
+				return false
+			}
+			for _, cg := range cs {
+				cl, g := cg[0].(*ssa.Call), cg[1].(*ssa.Function)
+				if idx >= len(cl.Common().Args) || !fromField(cl.Common().Args[idx], g, depth+1) {
+					return false
+				}
+			}
+			return true
+		}
+		return false
+	}
+	for f := range c.reachFrom([]*ssa.Function{m}) {
+		if !isLibFn(f) {
+			continue
+		}
+		for _, b := range f.Blocks {
+			for _, in := range b.Instrs {
+				cl, ok := in.(*ssa.Call)
+				if !ok {
+					continue
+				}
+				sc := cl.Common().StaticCallee()
+				if sc == nil || fnPkgPath(sc) != pkgTensor || sc.Name() != "Of" || len(cl.Common().Args) != 1 {
+					continue
+				}
+				dc, ok := stripConv(cl.Common().Args[0]).(*ssa.Call)
+				if !ok {
+					continue
+				}
+				if nm, recv := tensorMethod(dc); nm == "Dtype" && fromField(recv, f, 0) {
+					return true
+				}
+			}
+		}
+	}
+	return false
 }
